@@ -1,11 +1,11 @@
 """C10 - pixel and ASCII renderings are faithful and invertible."""
 ID = "C10"
 LEVEL = "exploration"
-LEVEL_TEXT = 'Bounded: image geometry, border, cell/edge pixels, endpoint and path colours, the ASCII text, and both read-back directions for all connection structures up to 2x3/3x2 (sampled or all 4096 on 3x3), all three kinds, all start != end pairs with all their shortest paths and all accepted flag combinations.'
+LEVEL_TEXT = 'PROVED (unbounded, z3): the black/white image builder (shape (2r+1,2c+1), cell pixels open, the pixel between two adjacent cells open exactly when connected, everything else wall - four loop invariants) and its reader (_from_pixel_grid_bw recovers exactly those bits for every odd-sized image). Bounded: image geometry, border, cell/edge pixels, endpoint and path colours, the ASCII text, and both read-back directions for all connection structures up to 2x3/3x2 (sampled or all 4096 on 3x3), all three kinds, all start != end pairs with all their shortest paths and all accepted flag combinations.'
 LEVEL_NOTE = 'Trusted: numpy.'
-TECHNIQUE = "bounded stand-in of the contract-based verifier: run-time checking of the real code against an independent executable statement over an enumerated scope (no function of this property is in the verified subset yet)"
-CONTRACT_MODULES = []
-PROVE = []
+TECHNIQUE = "contracts on the leaf functions discharged by z3 (pyvc) + bounded stand-in of the contract-based verifier: run-time checking of the real code against an independent executable statement over an enumerated scope (the proved leaf functions are listed in evidence; the property as a whole is decided by the bounded stand-in)"
+CONTRACT_MODULES = ['contracts.pixels']
+PROVE = [('maze_dataset/maze/lattice_maze.py', 'LatticeMaze._as_pixels_bw'), ('maze_dataset/maze/lattice_maze.py', 'LatticeMaze._from_pixel_grid_bw')]
 ASSUMPTIONS = []
 EXPLANATION = "see DESIGN.md C10"
 
